@@ -4579,6 +4579,22 @@ where
             f
           )),
         },
+        // a floating-point value is compared numerically with an integer controller
+        token::Value::INT(_) | token::Value::UINT(_) if self.state.ctrl.is_some() => {
+          let c = match value {
+            token::Value::INT(v) => *v as f64,
+            token::Value::UINT(v) => *v as f64,
+            _ => f64::NAN,
+          };
+          match &self.state.ctrl {
+            Some(ControlOperator::NE) | Some(ControlOperator::DEFAULT) if *f != c => None,
+            Some(ControlOperator::LT) if *f < c => None,
+            Some(ControlOperator::LE) if *f <= c => None,
+            Some(ControlOperator::GT) if *f > c => None,
+            Some(ControlOperator::GE) if *f >= c => None,
+            _ => Some(format!("expected {}, got {:?}", value, f)),
+          }
+        }
         _ => Some(format!("expected {}, got {:?}", value, f)),
       },
       Value::Text(s) => match value {
